@@ -17,7 +17,7 @@ SCHEDULES = [([(1, 2, 1), (2, 4, 2), (4, 2, 1), (4, 2, 2)], 2, (True, False)),
              ([(2, 2, 2), (1, 4, 3), (3, 2, 1), (4, 4, 2)], 1, (False, True))]
 
 
-def run_real(schedule, chunk, hist):
+def run_real(schedule, chunk, hist, jit=False):
     """the real Engine on real JAX with recording kernels (state and positions are real arrays)"""
     import jax
     import jax.numpy as jnp
@@ -40,7 +40,10 @@ def run_real(schedule, chunk, hist):
             return {"n": jnp.zeros(())}
 
         def _rec(self, what, epoch):
-            LOG.append([what, self.identifier, int(epoch.config.type), int(epoch.time_in_epoch), int(epoch.time)])
+            try:
+                LOG.append([what, self.identifier, int(epoch.config.type), int(epoch.time_in_epoch), int(epoch.time)])
+            except Exception:          # compiled run: values are tracers, the Python-level log is not used
+                LOG.append([what, self.identifier, None, None, None])
 
         def _step(self, what, key, ks, ms, epoch):
             self._rec(what, epoch)
@@ -83,7 +86,8 @@ def run_real(schedule, chunk, hist):
         k.set_model(model)
     cfgs = [EpochConfig(EpochType.INITIAL_VALUES, 1, 1, None)] + [EpochConfig(EpochType(t), d, th, None) for t, d, th in schedule]
     ms = stack_leaves([{f"p_k{i}": jnp.asarray(-1.0 - i) for i in range(nk)}])          # one chain
-    with jax.disable_jit():
+    import contextlib
+    with (contextlib.nullcontext() if jit else jax.disable_jit()):
         e = Engine(jax.random.split(jax.random.PRNGKey(0), 1), ms, KernelSequence(kernels), cfgs, chunk, model, None, store_kernel_states=True, show_progress=False)
         e.sample_all_epochs()
     r = e.get_results()
@@ -114,7 +118,11 @@ def main():
     which = sys.argv[1]
     out = []
     for schedule, chunk, hist in SCHEDULES:
-        log, chains, n = (run_real if which == "real" else run_fake)(schedule, chunk, hist)
+        if which == "realjit":       # compiled run: the Python-level call log only sees tracing, the stored chains (the time every kernel saw) are real
+            log, chains, n = run_real(schedule, chunk, hist, jit=True)
+            log = []
+        else:
+            log, chains, n = (run_real if which == "real" else run_fake)(schedule, chunk, hist)
         out.append(dict(log=log, chains=chains, infos=n))
     print("RESULT " + json.dumps(out))
 
@@ -122,7 +130,7 @@ def main():
 def compare():
     """returns (ok, message, number of compared log entries)"""
     res = {}
-    for which in ("real", "fake"):
+    for which in ("real", "fake", "realjit"):
         p = subprocess.run([sys.executable, "-m", "vf.ch.validate_fake", which], capture_output=True, text=True, env=dict(os.environ), timeout=900)
         line = [l for l in p.stdout.splitlines() if l.startswith("RESULT ")]
         if not line:
@@ -138,7 +146,10 @@ def compare():
         if a["chains"] != b["chains"] or a["infos"] != b["infos"]:
             return False, f"schedule {k}: stored chains differ: real {a['chains']} vs fake {b['chains']}", n
         n += len(a["log"])
-    return True, "call logs, tuning histories and stored chains identical", n
+    for k, (a, b) in enumerate(zip(res["realjit"], res["fake"])):
+        if a["chains"] != b["chains"] or a["infos"] != b["infos"]:
+            return False, f"schedule {k}: stored chains of the COMPILED real run differ from the fake environment: real {a['chains']} vs fake {b['chains']}", n
+    return True, "call logs, tuning histories and stored chains identical (jit disabled); stored chains identical to the compiled run", n
 
 
 if __name__ == "__main__":
